@@ -48,6 +48,9 @@ THEOREMS = [
     "Nix.C03.legal_name_accepted_partial",
     "Nix.C03.demo_reachable",
     "Nix.C03.demoX_reachable",
+    "Nix.C03.create_shape_tests_own_container",
+    "Nix.C03.create_shape_matches_model",
+    "Nix.C03.create_shape_functions",
     "Nix.C03.dispatch_agrees_on_pool",
     "Nix.C03.pool_uuidish",
 ]
@@ -86,8 +89,12 @@ MANIFEST = {
                   "colliding with the same kind and with other kinds drawn on purpose); uuid.UUID(text) acceptance has a "
                   "complete model (Py/UuidText.lean) pinned against nixio.util.is_uuid over generated spellings, and the "
                   "dispatch function of the structural model agrees with it on the histories' name pool "
-                  "(dispatch_agrees_on_pool).",
-    "level_note": "Trusted: Lean kernel; standard axioms; the correspondence harness; h5py/HDF5 link semantics "
+                  "(dispatch_agrees_on_pool). The shape of the ten create functions (container tested before "
+                  "DuplicateName, container created into, class created) is regenerated from block.py / section.py / "
+                  "source.py / file.py (Generated/CreateShape.lean) and proved to be the model's (create_shape_*).",
+    "technique": "Lean 4 proof (invariant over unbounded histories, per-function lemmas, decide over the regenerated "
+                 "create-shape table) with differential correspondence",
+    "level_note": "Trusted: Lean kernel; standard axioms; the correspondence harness; the create-shape translator; h5py/HDF5 link semantics "
                   "(creation-order iteration, hard links) are modelled, not verified; uuid4 freshness is an explicit "
                   "hypothesis (OpX.Fresh). Partial: acceptance is proved with the success of the call as a hypothesis "
                   "for create_group/array/tag/multi_tag/source/frame/section (for create_block the success itself is "
@@ -100,6 +107,12 @@ MANIFEST = {
 }
 
 NAMES = storegen.NAMES_PLAIN + storegen.NAMES_UUIDISH
+
+
+def extract(repo):
+    """shape of the create functions (which container is tested for DuplicateName, which one is created into)"""
+    from ..extract import c03_createshape
+    return c03_createshape.extract(repo)
 
 
 # ---------------------------------------------------------------------------------------
